@@ -4,13 +4,39 @@ namespace MaddyVerif.Expect.FuncSkelC01
 /-- (declaration, fingerprint of its normalised text): comments, layout, local names and log/trace statements do not count -/
 def funcs : List (String × String) := [
   ("framework/exterrors/temporary.go:IsTemporaryOrUnspec", "08ff47f63bc5e9bd"),
+  ("internal/smtpconn/smtpconn.go:C.Close", "4f893ccbc167de7b"),
+  ("internal/smtpconn/smtpconn.go:C.Data", "e530fddde562e053"),
+  ("internal/smtpconn/smtpconn.go:C.LMTPData", "e179f60ed562690a"),
+  ("internal/smtpconn/smtpconn.go:C.Rcpt", "243e20ba4f421fdc"),
+  ("internal/smtpconn/smtpconn.go:C.Rcpts", "180e824f795f01ee"),
+  ("internal/smtpconn/smtpconn.go:dataWriter.Close", "6d375401e5e39722"),
   ("internal/target/queue/queue.go:Queue.deliver", "f9c76cc6fc51885f"),
+  ("internal/target/queue/queue.go:Queue.dispatch", "b74f41bd2cc3ee79"),
   ("internal/target/queue/queue.go:Queue.emitDSN", "1e8fbe65a4db35c1"),
   ("internal/target/queue/queue.go:Queue.tryDelivery", "91d36a51cc7d0be5"),
   ("internal/target/queue/queue.go:toSMTPErr", "22651b4e75b94c9a"),
   ("internal/target/queue/queue.go:type QueueMetadata", "a01e328f233b5521"),
+  ("internal/target/remote/remote.go:remoteDelivery.Abort", "001ea450df388c8a"),
+  ("internal/target/remote/remote.go:remoteDelivery.AddRcpt", "22f624f979db1f13"),
+  ("internal/target/remote/remote.go:remoteDelivery.Body", "a554d8cda54e01ca"),
   ("internal/target/remote/remote.go:remoteDelivery.BodyNonAtomic", "74a666db1a05c9ea"),
-  ("internal/target/smtp/smtp_downstream.go:lmtpDelivery.BodyNonAtomic", "7c317da1d0ed03bd")
+  ("internal/target/remote/remote.go:remoteDelivery.Commit", "e3c71d719df70692"),
+  ("internal/target/smtp/smtp_downstream.go:Downstream.Init", "aba1b36f32ce13ef"),
+  ("internal/target/smtp/smtp_downstream.go:Downstream.InstanceName", "6e7760df5bb2be86"),
+  ("internal/target/smtp/smtp_downstream.go:Downstream.Name", "e7dac2487599bc9c"),
+  ("internal/target/smtp/smtp_downstream.go:Downstream.Start", "38aaa4b6e2493d7e"),
+  ("internal/target/smtp/smtp_downstream.go:Downstream.moduleError", "23436769285843f0"),
+  ("internal/target/smtp/smtp_downstream.go:NewDownstream", "de85576e77a38686"),
+  ("internal/target/smtp/smtp_downstream.go:delivery.Abort", "1165e84a5fbc4594"),
+  ("internal/target/smtp/smtp_downstream.go:delivery.AddRcpt", "70ae4e5f5dbd39ac"),
+  ("internal/target/smtp/smtp_downstream.go:delivery.Body", "3014f2e7bf3c5aab"),
+  ("internal/target/smtp/smtp_downstream.go:delivery.Commit", "ed078a6d3c27840f"),
+  ("internal/target/smtp/smtp_downstream.go:delivery.connect", "6a0603d98b83eee2"),
+  ("internal/target/smtp/smtp_downstream.go:init", "3b4c44f06284398a"),
+  ("internal/target/smtp/smtp_downstream.go:lmtpDelivery.BodyNonAtomic", "7c317da1d0ed03bd"),
+  ("internal/target/smtp/smtp_downstream.go:type Downstream", "48282401dea8067b"),
+  ("internal/target/smtp/smtp_downstream.go:type delivery", "5b8d6be69d39c03b"),
+  ("internal/target/smtp/smtp_downstream.go:type lmtpDelivery", "95062c840117a5fb")
 ]
 
 end MaddyVerif.Expect.FuncSkelC01
